@@ -25,7 +25,8 @@ MANIFEST = {
     "ALL rational y, with and without edge background subtraction (1 <= edge_count < n): C44_max_min (max/min are the x of the "
     "first largest/smallest background-subtracted y, and the original y there), C44_crossing_between_samples (every reported "
     "crossing comes from an adjacent pair of samples that straddles the half-maximum and lies between their x), C44_crossings_"
-    "complete (every straddling pair yields one; at least one exists when y is not constant), C44_fwhm (None with <2 crossings, "
+    "complete (every straddling pair yields one, in order; at least one exists iff y is not constant), C44_com_nan_iff (com is "
+    "NaN exactly when n>=2 and both sums vanish), C44_fwhm (None with <2 crossings, "
     "else |last-first| = distance between the outermost crossings), C44_cen_in_range, C44_com_in_range_partial (under the "
     "hypothesis sum(y)!=0 or sum(i*y)!=0; C44_com_in_range_full stays visible and is FALSE: com is NaN for y==0 or y=[1,-2,1]), "
     "C44_bkg_well_defined (strictly monotonic x and 1<=edge_count<n make the background slope well defined).",
@@ -50,6 +51,10 @@ ASSUMPTIONS = [
     " ORIGINAL y at that sample; ties go to the first sample (np.argmax/np.argmin)",
     "cen / crossings are only claimed when reported (they stay None exactly when y is constant: proved); fwhm is only claimed"
     " with at least two crossings (it stays None otherwise: proved)",
+    "the statement does not say whether a sample exactly AT the half-maximum counts as above or below: the oracle accepts"
+    " either (every reported crossing must lie between a weakly straddling unequal pair, every strictly straddling pair must"
+    " hold one); the model and the theorems use the code's `y > mid`, so a change of that convention shows up as a"
+    " model/implementation disagreement (no-failing-input-found), not as a property violation",
     "edge background subtraction is covered for 1 <= edge_count < n (for edge_count = 0 or >= n numpy produces NaN everywhere;"
     " the model says 'degenerate' and the correspondence run checks exactly that)",
     "the derivative statistics (calc_derivative_and_stats=True) reuse _calc_stats on (x[1:], diff(y)) and are not driven separately",
